@@ -75,7 +75,9 @@ def _string_end(text, pos):
     raise ValueError("unterminated string in %r" % text)
 
 
-COMMENTS = ["/* c */", "/* two words */", "/*x*/", "# hash\n", "// slashes\n", "/* a\n b */"]
+COMMENTS = ["/* c */", "/* two words */", "/*x*/", "# hash\n", "// slashes\n", "/* a\n b */",
+            # comments without text, and rulers made of characters that operators are made of
+            "//\n", "#\n", "/**/", "//=====\n", "//////////\n", "#-----\n", "// .:.:.\n", "//<=>\n", "/*==*/", "/* <= */"]
 STAR_COMMENTS = ["/***/", "/* a **/", "/** b */"]
 SPACES = [" ", "  ", "\n", "\t", " \n "]
 
